@@ -5,7 +5,7 @@ from shape import *
 from paths import *
 import r_decclass, r_inv, r_surr, r_pendcount, r_requeue, r_endian, r_utf8asm, r_prepend
 
-DEC_SURR_SCOPE = lambda nm: 'Decoder::' in nm or nm.startswith(('handles::Utf16Destination', 'handles::Utf8Destination', 'handles::convert_unaligned', 'utf_16::'))
+DEC_SURR_SCOPE = lambda nm: 'Decoder::' in nm or nm.startswith(('handles::Utf16Destination', 'handles::Utf8Destination', 'handles::convert_unaligned', 'handles::UnalignedU16Slice', 'utf_16::'))
 
 MANIFEST = {
     'category': 'other',
